@@ -27,7 +27,9 @@ type exprContext struct {
 	root             store.Cursor
 	result           Result
 	contextPosition  int
+	contextSize      int
 	principal        principalNodeType
+	reverseAxis      bool
 	builtinFunctions map[XmlName]Function
 	ContextSettings
 }
@@ -50,7 +52,9 @@ func (e *exprContext) copy() exprContext {
 		root:             e.root,
 		result:           e.result,
 		contextPosition:  e.contextPosition,
+		contextSize:      e.contextSize,
 		principal:        e.principal,
+		reverseAxis:      e.reverseAxis,
 		builtinFunctions: builtinFunctions,
 		ContextSettings:  e.ContextSettings,
 	}
